@@ -333,6 +333,26 @@ class _WCommon:
         return None
 
 
+class _WCommonProxy:
+    """`common` as the construction code sees it: the named-array classes and the validation are stand-ins (their own rules are C13 / C14's), any
+    other function of the real common.py is evaluated from its source"""
+
+    def __init__(self, ev_getter):
+        self._ev_getter = ev_getter
+
+    UiModelBase = _WCommon.UiModelBase
+    named_vector = staticmethod(_WCommon.named_vector)
+    named_covariance = staticmethod(_WCommon.named_covariance)
+    model_validation = staticmethod(_WCommon.model_validation)
+
+    def __getattr__(self, name):
+        ev = self._ev_getter()
+        fn = ev.funcs.get("common", {}).get(name) if ev is not None else None
+        if fn is None:
+            raise AttributeError(name)
+        return minieval.Func(ev, "common", fn)
+
+
 class WModel(_WCommon.UiModelBase):
     """the witness ui.Model of a valuation: n_state states s*, controls u*, calibrations k*; every update expression depends on all of them"""
 
@@ -349,8 +369,10 @@ class WModel(_WCommon.UiModelBase):
 def real_generator(v: Valuation, w: "Witness"):
     """the repo's own cpp.ExtendedKalmanFilter / cpp.Model, constructed by evaluating its __init__ (fv.minieval) on the witness model"""
     m = WModel(v)
-    natives = {"BasicBlock": WBlock, "Symbol": WSym, "diff": (lambda a, b, *r: a.diff(b)), "common": _WCommon, "sympy": None}
+    holder = {}
+    natives = {"BasicBlock": WBlock, "Symbol": WSym, "diff": (lambda a, b, *r: a.diff(b)), "common": _WCommonProxy(lambda: holder.get("ev")), "sympy": None}
     ev = w.evaluator(natives=natives)
+    holder["ev"] = ev
     cfg_node = ev.classes.get("cpp", {}).get("Config")
     if cfg_node is None:
         raise core.AnalysisError("anchor missing: cpp.Config")
@@ -435,7 +457,12 @@ class Witness:
     def evaluator(self, natives=None):
         """partial evaluator over the repo's construction code: ast_fragments, cpp and the node classes + printer of ast_tools
         (jinja2 -- FromFileTemplate.compile -- is the one modelled external: the repo's template text rendered by fv.minieval.render_template)"""
-        ev = minieval.MiniEval({"ast_fragments": self.frag, "cpp": self.cpp, "ast_tools": self.tools}, aliases={"fragments": "ast_fragments"}, natives=natives)
+        mods = {"ast_fragments": self.frag, "cpp": self.cpp, "ast_tools": self.tools}
+        try:
+            mods["common"] = self.ctx.parse("py/formak/common.py")       # helpers shared through common.py are evaluated from their source
+        except core.AnalysisError:
+            pass
+        ev = minieval.MiniEval(mods, aliases={"fragments": "ast_fragments"}, natives=natives)
 
         def from_file(inst, options=None, **kw):
             ins = inst.inserts or {}
